@@ -385,7 +385,11 @@ impl<'a> Eval<'a> {
     // C05
 
     pub fn step_bound(&self) -> f64 {
-        let p = &self.scn.planner;
+        self.step_bound_at(self.scn.calls.len())
+    }
+    /// extension bound with the planner parameters in force at call `ci`
+    pub fn step_bound_at(&self, ci: usize) -> f64 {
+        let p = &self.scn.planner_at(ci);
         match p.kind {
             PlannerKind::RRT | PlannerKind::RRTConnect => p.max_distance,
             PlannerKind::RRTStar => p.max_distance.max(p.search_radius),
@@ -398,7 +402,7 @@ impl<'a> Eval<'a> {
         if p.len() < 2 {
             return false;
         }
-        let b = self.step_bound();
+        let b = self.step_bound_at(ci);
         let (er, ea) = self.geo.eps();
         for i in 0..p.len() - 1 {
             let d = self.geo.d(&p[i], &p[i + 1]);
@@ -427,7 +431,7 @@ impl<'a> Eval<'a> {
         let timeout_ns: u64 = match &self.scn.calls[ci] {
             CallSpec::Solve { timeout_ns, .. } => *timeout_ns,
             CallSpec::Construct { .. } => {
-                let t = self.scn.planner.prm_timeout_s * 1e9;
+                let t = self.scn.planner_at(ci).prm_timeout_s * 1e9;
                 if !(t >= 0.0) {
                     return None;
                 }
